@@ -86,3 +86,23 @@ pub fn crash_point(name: &str) {
     std::process::abort();
   }
 }
+
+/// Inline CBOR encoding of properties.
+pub fn properties_to_inline_cbor(properties: &crate::Properties) -> Option<Vec<u8>> {
+  properties.to_inline_cbor()
+}
+
+/// Packed CBOR encoding of properties.
+pub fn properties_to_packed_cbor(properties: &crate::Properties) -> Option<Vec<u8>> {
+  properties.to_packed_cbor()
+}
+
+/// Decode properties from CBOR (either form).
+pub fn properties_from_cbor(cbor: &[u8]) -> crate::Properties {
+  crate::Properties::from_cbor(cbor)
+}
+
+/// The properties an inscription carries, after the bounded decompression of its properties field.
+pub fn inscription_properties(inscription: &crate::Inscription) -> crate::Properties {
+  inscription.properties()
+}
